@@ -138,42 +138,27 @@ def fixed_zone(cls, off, name=None):
 
 
 def zone_off_utc(zone, u):
-    """offset (seconds) in force at UTC instant u (microseconds on the wall_us scale)"""
-    r = zone.o[0]
-    for i, Ti in enumerate(zone.T):
-        r = sym.If(sym.ge(u, Ti), zone.o[i + 1], r)
-    return r
+    from . import zones
+
+    return zones.off_utc(zone, u)
 
 
 def zone_off_wall(zone, w, fold):
-    """PEP 495 utcoffset of wall time w (zoneinfo: bisect on T + max/min(before, after))"""
-    r = zone.o[0]
-    for i, Ti in enumerate(zone.T):
-        a, b = zone.o[i], zone.o[i + 1]
-        shift = sym.If(sym.eq(fold, 0), sym.maxv(a, b), sym.minv(a, b))
-        r = sym.If(sym.ge(w, sym.add(Ti, sym.mul(shift, M))), b, r)
-    return r
+    from . import zones
+
+    return zones.off_wall(zone, w, fold)
 
 
 def zone_fold_of(zone, u):
-    """fold flag of the rendering of instant u: 1 exactly in the second pass of a repeated interval"""
-    conds = []
-    for i, Ti in enumerate(zone.T):
-        a, b = zone.o[i], zone.o[i + 1]
-        conds.append(sym.And(sym.gt(a, b), sym.ge(u, Ti), sym.lt(u, sym.add(Ti, sym.mul(sym.sub(a, b), M)))))
-    return sym.b2i(sym.Or(*conds)) if conds else 0
+    from . import zones
+
+    return zones.fold_of(zone, u)
 
 
 def n_preimages(zone, w):
-    """number of UTC instants whose rendering has wall time w"""
-    n = 0
-    segs = len(zone.o)
-    for j in range(segs):
-        u = sym.sub(w, sym.mul(zone.o[j], M))
-        lo = True if j == 0 else sym.ge(u, zone.T[j - 1])
-        hi = True if j == segs - 1 else sym.lt(u, zone.T[j])
-        n = sym.add(n, sym.b2i(sym.And(lo, hi)))
-    return n
+    from . import zones
+
+    return zones.n_preimages(zone, w)
 
 
 # ----------------------------------------------------------------------------- utcoffset dispatch
